@@ -75,7 +75,16 @@ def norm_asm(asm):
             out += [6]
             i += 1
         elif type(t).__name__ == "PUSHLABEL":
-            out += [7, LABEL_IDS[t.label.label]]
+            out += [7, LABEL_IDS.get(t.label.label, 0)]
+            i += 1
+        elif type(t).__name__ == "Label":
+            out += [8]
+            i += 1
+        elif t == "JUMP":
+            out += [9]
+            i += 1
+        elif isinstance(t, str) and t.lower() in PLAIN_OPS:
+            out += [10, PLAIN_OPS.index(t.lower())]
             i += 1
         else:
             raise ValueError(f"unexpected assembly item {t!r}")
@@ -83,6 +92,9 @@ def norm_asm(asm):
 
 
 LABEL_IDS = {f"lab{k}": 4 * k + 2 for k in range(64)}
+# non-commutative one-to-one opcodes used for the instruction-codegen differential: (name, #operands, #outputs)
+PLAIN = [("sub", 2, 1), ("sstore", 2, 0), ("addmod", 3, 1), ("iszero", 1, 1), ("call", 7, 1), ("calldatasize", 0, 1), ("sload", 1, 1)]
+PLAIN_OPS = [p[0] for p in PLAIN]
 
 
 ERR = {AssertionError: 1, IndexError: 2, KeyError: 3, TypeError: 4}
@@ -100,6 +112,29 @@ class StubDFG:
             ia, ib = self.ids.id_of(a), self.ids.id_of(b)
             return self.rep.get(ia, ia) == self.rep.get(ib, ib)
         return False
+
+
+def make_inst(ids, kind, code, ops, outs, next_term):
+    """a real IRInstruction (invoke / ret / plain) inside a scratch basic block, followed by a terminator or a nop"""
+    from vyper.venom.basicblock import IRInstruction, IRLabel
+    from vyper.venom.context import IRContext
+    ctx = IRContext()
+    fn = ctx.create_function("scratch")
+    bb = fn.entry
+    o = [ids.op(i) for i in ops]
+    outv = [ids.op(i) for i in outs]
+    if kind == 0:
+        inst = IRInstruction("invoke", [IRLabel("callee")] + o, outv)
+    elif kind == 1:
+        inst = IRInstruction("ret", o)
+    else:
+        inst = IRInstruction(PLAIN[code][0], o, outv)
+    bb.insert_instruction(inst)
+    if kind != 1:
+        if not next_term:
+            bb.insert_instruction(IRInstruction("nop", []))
+        bb.insert_instruction(IRInstruction("stop", []))
+    return inst
 
 
 class Real:
@@ -224,6 +259,25 @@ class Real:
                 vc._emit_input_operands(asm, inst, [ids.op(i) for i in c[2]], stack, OrderedSet(ids.op(i) for i in c[3]), spilled)
             elif k == "popmany":
                 vc.popmany(asm, [ids.op(i) for i in c[1]], stack)
+            elif k == "inst":
+                _, kind, code, ops, outs, live, next_term, skip_pops = c
+                from vlib import c14s_tv as TV
+                inst = make_inst(ids, kind, code, ops, outs, next_term)
+                rec = {"inst": inst, "before": list(stack._stack), "sp_before": dict(spilled),
+                       "slots": set(sp._spill_free_slots) | set(spilled.values())}
+                nxt0 = sp._next_spill_offset
+                out_asm = vc._generate_evm_for_instruction(inst, stack, OrderedSet(ids.op(i) for i in live), spilled, skip_pops)
+                asm.extend(out_asm)
+                rec["slots"] |= set(sp._spill_free_slots) | set(spilled.values()) | set(range(nxt0, sp._next_spill_offset, 32))
+                rec.update(asm=list(out_asm), after=list(stack._stack), sp_after=dict(spilled))
+                v = TV.validate(vc, rec)
+                if v not in (None, "skip"):
+                    self.oracle_bad.append({"command": [str(x) for x in c], "stack_before": [ids.id_of(o) for o in rec["before"]],
+                                            "assembly": [str(x) for x in out_asm], "problem": "instruction codegen: " + v})
+            elif k == "pushvar":
+                from vyper.evm.assembler.instructions import PUSH
+                asm.extend(PUSH(c[1]))
+                stack.push(ids.op(c[1]))
             elif k == "swap_op":
                 self.costs.append(vc.swap_op(asm, stack, ids.op(c[1])))
             elif k == "dup_op":
@@ -254,8 +308,10 @@ def coq_cmd(c):
     return {"swap": lambda: f"CSwap {z(c[1])}", "dup": lambda: f"CDup {z(c[1])}", "spill": lambda: f"CSpill {z(c[1])}",
             "restore": lambda: f"CRestore {c[1]}", "release": lambda: f"CRelease {zl(c[1])}",
             "reorder": lambda: f"CReorder {'true' if c[1] else 'false'} {zl(c[2])}", "pop": lambda: f"CPop {z(c[1])}",
-            "push": lambda: f"CPush {c[1]}", "emit": lambda: f"CEmit {'true' if c[1] else 'false'} {zl(c[2])} {zl(c[3])}",
-            "popmany": lambda: f"CPopMany {zl(c[1])}", "swap_op": lambda: f"CSwapOp {c[1]}", "dup_op": lambda: f"CDupOp {c[1]}"}[k]()
+            "push": lambda: f"CPush {c[1]}", "pushvar": lambda: f"CPush {c[1]}", "emit": lambda: f"CEmit {'true' if c[1] else 'false'} {zl(c[2])} {zl(c[3])}",
+            "popmany": lambda: f"CPopMany {zl(c[1])}",
+            "inst": lambda: f"CInst {c[1]} {c[2]} {zl(c[3])} {zl(c[4])} {zl(c[5])} {'true' if c[6] else 'false'} {'true' if c[7] else 'false'}",
+            "swap_op": lambda: f"CSwapOp {c[1]}", "dup_op": lambda: f"CDupOp {c[1]}"}[k]()
 
 
 def gen_scenario(rnd, ids, big):
@@ -325,7 +381,25 @@ def gen_scenario(rnd, ids, big):
             else:
                 xs = rnd.sample(cur, min(k, len(cur)))
             c = ("popmany", list(dict.fromkeys(xs)) + ([rnd.choice(pool)] if wild else []))
-        elif r < 0.95:
+        elif r < 0.945 and height >= 1:
+            kind = rnd.choice([0, 0, 1, 2])
+            cand = list(dict.fromkeys([x for x in cur if x % 4 != 2] + sp_keys)) + [p for p in pool if p % 4 == 0]
+            if kind == 0:
+                nops, nouts, code = rnd.choice([0, 1, 2, 3, 5, 8, 12, 18]), rnd.randrange(0, 4), 0
+            elif kind == 1:
+                nops, nouts, code = rnd.randrange(1, 5), 0, 0
+            else:
+                code = rnd.randrange(len(PLAIN))
+                nops, nouts = PLAIN[code][1], PLAIN[code][2]
+            ops = rnd.sample(cand, min(len(cand), nops))
+            if kind == 2 and len(ops) != nops:
+                continue
+            fresh = [ids.var(200 + 8 * len(cmds) + j) for j in range(nouts)]
+            live_pool = [x for x in cur if x % 4 == 1 and (x not in ops or rnd.random() < 0.3)]
+            live = rnd.sample(live_pool, min(len(live_pool), rnd.randrange(0, 4))) + [f for f in fresh if rnd.random() < 0.7]
+            rnd.shuffle(live)
+            c = ("inst", kind, code, ops, fresh, live, rnd.random() < 0.4, rnd.random() < 0.2)
+        elif r < 0.955:
             c = ("push", rnd.choice([p for p in pool if p % 4 == 0]))
         elif r < 0.97 and cur:
             c = ("swap_op", rnd.choice(cur if not wild else pool))
@@ -339,6 +413,77 @@ def gen_scenario(rnd, ids, big):
     return m0, classes, cmds, real
 
 
+def gen_call_scenario(rnd, ids):
+    """instruction-codegen scenarios for the internal-call convention: a stack of distinct variables (some spilled),
+    then `invoke` with 0..20 arguments (variables + literals) and 0..6 outputs, plain instructions, and a final `ret`
+    whose operands are everything that is still live (as the liveness analysis guarantees at a ret)."""
+    nvars = rnd.randrange(3, 34)
+    pool = [ids.var(k) for k in range(nvars)]
+    lits = [ids.lit(k) for k in range(4)]
+    m0 = rnd.sample(pool, rnd.randrange(1, nvars + 1))
+    real = Real(ids, {}, m0)
+    cmds = []
+    fresh_k = [400]
+
+    def fresh(n):
+        out = [ids.var(fresh_k[0] + j) for j in range(n)]
+        fresh_k[0] += n
+        return out
+
+    def do(c):
+        cmds.append(c)
+        return real.apply(c)
+
+    for _ in range(rnd.randrange(0, 3)):
+        cur = real.stack_ids()
+        if len(cur) > 2 and not do(("spill", -rnd.randrange(0, min(len(cur), 17)))):
+            return m0, {}, cmds, real
+    for _ in range(rnd.randrange(1, 4)):
+        cur = real.stack_ids()
+        sp_keys = [ids.id_of(o) for o in real.spilled]
+        avail = list(dict.fromkeys(cur + sp_keys))
+        nargs = rnd.choice([0, 1, 2, 3, 4, 6, 7, 9, 12, 16, 17, 20])
+        args = rnd.sample(avail, min(len(avail), nargs))
+        for _j in range(rnd.randrange(0, 3)):
+            if len(args) < nargs:
+                args.insert(rnd.randrange(len(args) + 1), rnd.choice(lits + [ids.lit(10 + len(cmds) * 4 + _j)]))
+        args = list(dict.fromkeys(args))
+        outs = fresh(rnd.randrange(0, 7))
+        # variables that stay live: some non-arguments, some arguments (these must be dup'ed), some outputs
+        stay = [x for x in avail if x not in args and rnd.random() < 0.7] + [x for x in args if x % 4 == 1 and rnd.random() < 0.25]
+        live = stay + [o for o in outs if rnd.random() < 0.75]
+        rnd.shuffle(live)
+        kind = 0 if rnd.random() < 0.8 else 2
+        if kind == 2:
+            code = rnd.randrange(len(PLAIN))
+            if len(avail) < PLAIN[code][1]:
+                continue
+            args = rnd.sample(avail, PLAIN[code][1])
+            outs = fresh(PLAIN[code][2])
+            live = [x for x in avail if x not in args and rnd.random() < 0.7] + outs
+        else:
+            code = 0
+        if not do(("inst", kind, code, args, outs, live, rnd.random() < 0.3, False)):
+            return m0, {}, cmds, real
+        # what is not live is dead: the scheduler is entitled to leave it anywhere; pop it like the real pipeline would
+        cur = real.stack_ids()
+        dead = [x for x in dict.fromkeys(cur) if x not in live]
+        if dead and not do(("popmany", dead)):
+            return m0, {}, cmds, real
+    cur = real.stack_ids()
+    sp_keys = [ids.id_of(o) for o in real.spilled]
+    vals = list(dict.fromkeys(cur + sp_keys))
+    rnd.shuffle(vals)
+    vals = vals[:rnd.randrange(0, 7)]
+    pc = fresh(1)
+    do(("pushvar", pc[0]))                        # the return-pc slot (retpc_param)
+    rest = [x for x in real.stack_ids() if x not in vals and x != pc[0]]
+    if rest:
+        do(("popmany", list(dict.fromkeys(rest))))
+    do(("inst", 1, 0, vals + pc, [], [], True, False))
+    return m0, {}, cmds, real
+
+
 def spill_differential(ctx, n_scen):
     """exact-output differential: real classes vs Spill.v (assembly, stack map, free slots, next/peak, spilled dict,
     costs, failing command + error class), plus in Coq: executing the emitted assembly from the initial stack yields
@@ -347,7 +492,10 @@ def spill_differential(ctx, n_scen):
     scen = []
     for k in range(n_scen):
         ids = Ids()
-        m0, classes, cmds, real = gen_scenario(rnd, ids, big=(k % 2 == 0))
+        if k % 4 == 3:
+            m0, classes, cmds, real = gen_call_scenario(rnd, ids)
+        else:
+            m0, classes, cmds, real = gen_scenario(rnd, ids, big=(k % 2 == 0))
         scen.append((ids, m0, classes, cmds, real))
     zl = lambda l: "[" + "; ".join(str(x) for x in l) + "]"  # noqa
     exprs = []
@@ -365,7 +513,7 @@ def spill_differential(ctx, n_scen):
             if any(x > 16 for x in [len(m0)]) or 1 in [1 for c in cmds if c[0] in ("swap", "dup") and -c[1] > 16]:
                 stats["deep"] += 1
             model, extra = o[:len(want)], o[len(want):]
-            machine_ok = not any(c[0] == "emit" and c[1] for c in cmds)   # invoke: the label is pushed by the instruction itself
+            machine_ok = not any((c[0] == "emit" and c[1]) or c[0] == "inst" for c in cmds)   # invoke: the label is pushed by the instruction itself
             if model != want or (extra != [1, 1] if machine_ok else extra[1:] != [1]):
                 bad.append({"initial_stack": m0, "classes": classes, "commands": [list(map(str, c)) for c in cmds],
                             "real": want, "model": o,
@@ -412,7 +560,7 @@ def evm_execution(ctx, scen):
     n = 0
     bad = []
     for ids, m0, classes, cmds, real in scen:
-        if real.failed or any(c[0] == "emit" and c[1] for c in cmds):
+        if real.failed or any((c[0] == "emit" and c[1]) or c[0] == "inst" for c in cmds):
             continue
         final = real.stack_ids()
         try:
